@@ -154,6 +154,9 @@ func c13Constructors(c *Ctx) {
 			if n := cg.Nodes[f]; n != nil && len(n.In) > 0 {
 				lifted = true
 				for _, e := range n.In {
+					if !c.P.AllFuncs()[e.Caller.Func] {
+						continue // a helper that was expanded into all its callers (or a function outside the census)
+					}
 					caller := e.Caller.Func
 					if !reach[caller] {
 						continue
